@@ -360,10 +360,10 @@ class AnnotationsItem:
                     blocks.append(re.escape(char))
                     index += 1
             result = "".join(blocks)
-            return f"^({result})$"
+            return f"^({result})\\Z"
 
         self._paths_regex = re.compile(
-            "|".join(translate(path) for path in self.paths)
+            "|".join(translate(path) for path in self.paths), re.DOTALL
         )
 
     @classmethod
